@@ -463,6 +463,8 @@ pub fn load_known(root: &std::path::Path) -> Vec<KnownFinding> {
 // property-level driver
 
 pub struct PropertyDef {
+    /// libFuzzer targets (under /verif/fuzz) that carry this property's oracle; run in the thorough tier
+    pub fuzz_targets: &'static [&'static str],
     pub id: &'static str,
     pub level: &'static str,
     pub rule: &'static str,
@@ -541,6 +543,28 @@ pub fn run_property(def: &PropertyDef, ctx: &Ctx) -> i32 {
             println!("VIOLATION property={} replay={}", def.id, f.replay_path.clone().unwrap_or_default());
         }
         reports.push(r);
+    }
+    // 2b. coverage-guided campaigns (thorough tier only)
+    if ctx.tier == Tier::Thorough && exit == 0 {
+        for t in def.fuzz_targets {
+            let r = crate::fuzzrun::campaign(def.id, t, ctx);
+            println!(
+                "  [{}:libfuzzer:{}] executions={} corpus={} {}",
+                def.id,
+                t,
+                r.evaluations,
+                r.nontrivial.len(),
+                r.notes.first().cloned().unwrap_or_default()
+            );
+            if let Some(f) = &r.failure {
+                exit = 1;
+                for v in &f.violations {
+                    println!("  violation clause={} sig={} :: {}", v.clause, v.sig, v.detail);
+                }
+                println!("VIOLATION property={} replay={}", def.id, f.replay_path.clone().unwrap_or_default());
+            }
+            reports.push(r);
+        }
     }
     // 3. evidence
     let evaluations: u64 = reports.iter().map(|r| r.evaluations).sum();
@@ -621,14 +645,18 @@ pub fn replay_file(def: &PropertyDef, ctx: &Ctx, path: &str) -> i32 {
         }
     };
     let sub = v["sub"].as_str().unwrap_or("");
-    let s = match def.subs.iter().find(|s| s.name() == sub) {
-        Some(s) => s,
-        None => {
-            eprintln!("unknown sub-check '{}' for {}", sub, def.id);
-            return 2;
+    let result = if let Some(t) = sub.strip_prefix("libfuzzer:") {
+        crate::fuzzrun::replay(def.id, t, v["case"]["input_hex"].as_str().unwrap_or(""))
+    } else {
+        match def.subs.iter().find(|s| s.name() == sub) {
+            Some(s) => s.replay(&v["case"]),
+            None => {
+                eprintln!("unknown sub-check '{}' for {}", sub, def.id);
+                return 2;
+            }
         }
     };
-    match s.replay(&v["case"]) {
+    match result {
         Ok(out) => {
             if let Some(p) = &out.aborted_by_panic {
                 println!("NOTE: case aborted by panic inside muxide: {}", p);
